@@ -12,7 +12,7 @@ import itertools
 from pyvc.sym import And, Or, Not, Implies, Iff, Ite, deep_eq, deep_lt, Sym
 from spec.groups import MOD, ALL_SYMS, FUSE_S, canon, is_canonical, zero, sym_class
 from spec import tensor as T
-from spec.tensor import sym_tensor, check_wf, view, same_block_set, leg_charge, GhostData
+from spec.tensor import sym_tensor, check_wf, view, same_block_set, leg_charge, GhostData, make_config, prod
 
 from contracts.t_contract import (h_tensordot, tensordot_units, h_add, h_add_incompatible, h_vdot, h_trace,
                                   h_broadcast, more_units)
@@ -25,6 +25,7 @@ FUNCTIONS = [f"{S_}:{f}" for f in ('conj', 'conj_blocks', 'flip_signature', 'fli
     'yastn.tensor:Tensor.__init__', 'yastn.tensor:Tensor._replace', 'yastn.tensor._auxiliary:_unpack_axes',
     'yastn.tensor._auxiliary:_clear_axes', 'yastn.tensor._auxiliary:_join_contiguous_slices',
     'yastn.tensor._tests:_test_axes_all', 'yastn.tensor._tests:is_consistent', 'yastn.tensor._tests:_test_tD_consistency',
+    'yastn.tensor._initialize:set_block', 'yastn.tensor._initialize:_fill_tensor', 'yastn.tensor._initialize:_init_block',
 ]
 ASSUMPTIONS = [
     "backend kernels are replaced by their size/provenance contract (ghost backend): result size as passed by the "
@@ -338,6 +339,122 @@ def h_copies(V, sym, nd, lt, trans, op):
             V.check('data-from-copy-kernel', r._data is not a._data and r._data.op[0] in ('copy', 'clone') and r._data.src[0] is a._data)
 
 
+def h_set_block(V, sym, nd, lt, diag, kind):
+    """
+    set_block (the in-place way to add / replace a block): a block violating the selection rule is refused and the tensor is left as
+    it was; otherwise the tensor stays well-formed, holds exactly the old blocks (same charges, shapes, relative order) plus the new
+    one at its sorted position, an existing block of the same charges is replaced, and the data array is edited inside its bounds
+    """
+    from yastn import YastnError
+    nsym = len(MOD[sym])
+    a = mk(V, sym, nd, lt, None, diag=diag, stem='a')
+    va = view(a, sym)
+    old_struct, old_slices, old_data = a.struct, a.slices, a._data
+    if kind == 'replace' and lt == 0:
+        return
+    if kind == 'replace':
+        k = V.choice('which', list(range(lt)))
+        ts = tuple(a.struct.t[k])
+        Ds = tuple(a.struct.D[k])
+    else:
+        ts = tuple(V.int(f"new_t{i}") for i in range(nd * nsym))
+        Ds = tuple(V.int(f"new_D{i}", lo=1) for i in range(nd))
+        if diag:
+            V.assume(And(Ds[0] == Ds[1], deep_eq(ts[:nsym], ts[nsym:])))
+        for i in range(nd):
+            for j, m in enumerate(MOD[sym]):
+                if m:
+                    V.assume(And(ts[i * nsym + j] >= 0, ts[i * nsym + j] < m))
+    rule = deep_eq(tuple(FUSE_S([leg_charge(ts, l, nsym) for l in range(nd)], va['s'], 1, sym)), tuple(a.struct.n)) if nsym else True
+    if kind == 'new':
+        # a new block: its charges differ from every existing block and its dimensions agree with the sectors already present
+        for b in a.struct.t:
+            V.assume(Not(deep_eq(tuple(b), ts)))
+        for l in range(nd):
+            for bt, bD in zip(a.struct.t, a.struct.D):
+                V.assume(Implies(deep_eq(leg_charge(bt, l, nsym), leg_charge(ts, l, nsym)), bD[l] == Ds[l]))
+    args_ts = ts if nsym else ()
+    out = V.outcome(a.set_block, ts=args_ts, Ds=Ds, val='zeros')
+    if not V.fork(rule):
+        V.check('block-violating-the-selection-rule-refused', out.raised(YastnError))
+        V.check('refused-call-leaves-the-tensor-untouched', a.struct is old_struct and a.slices is old_slices and a._data is old_data)
+        return
+    if nsym == 0 and kind == 'new' and lt == 1:
+        return                                          # a dense tensor has one block: 'new' next to an existing one does not exist
+    V.check('admissible-block-accepted', out.exc is None)
+    if out.exc is not None:
+        return
+    check_wf(V, a, sym, 'wf(after)')
+    vb = view(a, sym)
+    V.check('charge-and-signature-unchanged', deep_eq(vb['n'], va['n']) and deep_eq(vb['s'], va['s']))
+    newb = [b for b in vb['blocks']]
+    want = [(b[0], b[1]) for b in va['blocks'] if not (kind == 'replace' and False)]
+    has_new = Or(*[And(deep_eq(b[0], ts), deep_eq(b[1], Ds)) for b in newb]) if newb else False
+    V.check('new-block-present-with-its-shape', has_new)
+    V.check('number-of-blocks', len(newb) == (lt if kind == 'replace' else lt + 1))
+    V.check('old-blocks-kept-with-their-shapes', And(*[Or(*[And(deep_eq(w[0], b[0]), deep_eq(w[1], b[1])) for b in newb]) for w in want]) if want else True)
+    V.check('storage-is-the-sum-of-the-blocks', a.struct.size == sum(prod(b[1]) if not diag else b[1][0] for b in newb) if newb else a.struct.size == 0)
+
+
+def h_fill_tensor(V, sym, nd, nsec, diag):
+    """
+    _fill_tensor (behind rand / zeros / ones / eye): from per-leg sector lists, the tensor holds exactly the combinations that satisfy
+    the selection rule and have non-zero dimensions, sorted, with the given shapes
+    """
+    from yastn.tensor import Tensor
+    from yastn.tensor._initialize import _fill_tensor
+    nsym = len(MOD[sym])
+    cfg = make_config(V, sym)
+    signs = tuple(V.sign(f"s{l}") for l in range(nd))
+    if diag:
+        V.assume(signs[0] == -signs[1])
+    n = tuple(V.int(f"n{j}") for j in range(nsym))
+    for j, m in enumerate(MOD[sym]):
+        if m:
+            V.assume(And(n[j] >= 0, n[j] < m))
+    if diag:
+        n = (0,) * nsym                                      # a diagonal tensor carries no charge
+    a = V.call(Tensor, config=cfg, s=signs, n=n if (nsym and not diag) else None, isdiag=diag)
+    legs_t, legs_D = [], []
+    for l in range(nd if not diag else 1):
+        ts_, Ds_ = [], []
+        for k in range(nsec):
+            t = tuple(V.int(f"t{l}_{k}_{j}") for j in range(nsym))
+            for j, m in enumerate(MOD[sym]):
+                if m:
+                    V.assume(And(t[j] >= 0, t[j] < m))
+            for prev in ts_:
+                V.assume(Not(deep_eq(prev, t)))
+            ts_.append(t)
+            Ds_.append(V.int(f"D{l}_{k}", lo=0 if nsym else 1))    # zero-dimensional sectors are dropped
+        legs_t.append(tuple(ts_))
+        legs_D.append(tuple(Ds_))
+    if nsym == 0:
+        out = V.outcome(_fill_tensor, a, t=(), D=tuple(d[0] for d in legs_D), val='zeros')
+    else:
+        out = V.outcome(_fill_tensor, a, t=tuple(legs_t), D=tuple(legs_D), val='zeros')
+    V.check('accepted', out.exc is None)
+    if out.exc is not None:
+        return
+    check_wf(V, a, sym, 'wf(filled)')
+    if diag:
+        legs_t, legs_D = legs_t * 2, legs_D * 2
+    got = [(tuple(b_t), tuple(b_D)) for b_t, b_D in zip(a.struct.t, a.struct.D)]
+    combos = list(itertools.product(*[range(nsec)] * nd)) if nsym else [tuple([0] * nd)]
+    for c in combos:
+        if diag and c[0] != c[1]:
+            continue
+        t = tuple(x for l in range(nd) for x in (legs_t[l][c[l]] if nsym else ()))
+        D = tuple(legs_D[l][c[l]] for l in range(nd))
+        ok_rule = deep_eq(tuple(FUSE_S([leg_charge(t, l, nsym) for l in range(nd)], signs, 1, sym)), n) if nsym else True
+        nonzero = And(*[d > 0 for d in D])
+        present = Or(*[And(deep_eq(g[0], t), deep_eq(g[1], D)) for g in got]) if got else False
+        V.check('allowed-non-empty-combination-is-a-block-with-its-shape', Implies(And(ok_rule, nonzero), present))
+        V.check('forbidden-or-empty-combination-is-no-block', Implies(Not(And(ok_rule, nonzero)), Not(Or(*[deep_eq(g[0], t) for g in got]) if got else False)))
+    V.check('no-block-outside-the-given-sectors', And(*[Or(*[deep_eq(g[0], tuple(x for l in range(nd) for x in (legs_t[l][c[l]] if nsym else ()))) for c in combos])
+                                                        for g in got]) if got else True)
+
+
 def h_is_consistent(V, sym, nd, lt, diag, break_what):
     """ the repository's own checker accepts every wf tensor and rejects the listed corruptions """
     from yastn.tensor._auxiliary import _slc
@@ -455,6 +572,29 @@ def units(tier):
             U.append(('h_is_consistent', f"{sym},diag,lt={lt},none", dict(sym=sym, nd=2, lt=lt, diag=True, break_what='none')))
     U += tensordot_units(tier)
     U += more_units(tier)
+    for sym in syms:
+        dense_ = len(MOD[sym]) == 0
+        for nd in (1, 2, 3):
+            for lt in (0, 1, 2):
+                if dense_ and lt > 1:
+                    continue
+                if not th and len(MOD[sym]) > 1 and nd == 3 and lt > 1:
+                    continue
+                for kind in ('new', 'replace'):
+                    U.append(('h_set_block', f"{sym},nd={nd},lt={lt},{kind}", dict(sym=sym, nd=nd, lt=lt, diag=False, kind=kind)))
+        for lt in (0, 1, 2):
+            if dense_ and lt > 1:
+                continue
+            for kind in ('new', 'replace'):
+                U.append(('h_set_block', f"{sym},diag,lt={lt},{kind}", dict(sym=sym, nd=2, lt=lt, diag=True, kind=kind)))
+        for nd, nsec in ((1, 2), (2, 1), (2, 2)) + (((3, 1), (3, 2)) if (th and len(MOD[sym]) <= 1) else ((3, 1),)):
+            if dense_ and nsec > 1:
+                continue
+            U.append(('h_fill_tensor', f"{sym},nd={nd},sectors={nsec}", dict(sym=sym, nd=nd, nsec=nsec, diag=False)))
+        for nsec in (1, 2):
+            if dense_ and nsec > 1:
+                continue
+            U.append(('h_fill_tensor', f"{sym},diag,sectors={nsec}", dict(sym=sym, nd=2, nsec=nsec, diag=True)))
     return U
 
 
